@@ -255,7 +255,9 @@ func (g *gstate) tokenVal(gn string) string {
 	case 6:
 		f = append(f, "expires~s.2001-01-01T00%3A00%3A00Z")
 	}
-	switch r.Weighted(30, 15, 15, 10, 10, 8, 6, 6) {
+	switch r.Weighted(30, 15, 15, 10, 10, 8, 6, 6, 8) {
+	case 8: // a list that names a permission twice (nothing deduplicates it; a revocation must remove both)
+		f = append(f, "permissions~l."+common.Pick(r, "present+present", "present+message+present", "message+present+message", "present+message+message+present"))
 	case 0:
 		f = append(f, "permissions~l.present+message")
 	case 1:
@@ -567,7 +569,8 @@ func (g *gstate) setup(ngroups int) {
 		name := fmt.Sprintf("tk%d", k)
 		gn := common.Pick(r, "g1", "g1", "g2", "other")
 		user := common.Pick(r, "%", "%", "tim", "alice")
-		perms := common.Pick(r, "present+message", "message", "op+present+message", "-", "present+message+token", "[]")
+		perms := common.Pick(r, "present+message", "message", "op+present+message", "-", "present+message+token", "[]",
+			"present+present", "op+record+present+op+message")
 		exp := common.Pick(r, "F", "F", "F", "P", "-")
 		nbf := common.Pick(r, "-", "-", "-", "F", "P")
 		g.do(fmt.Sprintf("tok %s %s %s %s %s %s", name, gn, user, perms, exp, nbf))
@@ -931,6 +934,15 @@ func (g *gstate) directed(k int) {
 		}
 		g.script("q", "m 1 t=groupaction k=unrecord", "m 0 t=groupaction k=unrecord", "q",
 			"m 0 t=useraction k=identify dst="+disk, "m 0 t=groupaction k=record", "q", "m 0 t=join k=leave g=g1", "q", "probe")
+	case 13: // a permission held twice is revoked: both occurrences go
+		g.script("group g1 u=alice:pw:op w=*:message rec", "client 0 c0", "client 1 c1", "client 2 c2",
+			"m 0 t=join k=join g=g1 u=alice pw=pw", "q",
+			"m 0 t=groupaction k=maketoken v=m.group~s.g1!expires~i.3600000!permissions~l."+common.Pick(r, "present+present", "present+message+present", "message+present+message+present"),
+			"q", "m 1 t=join k=join g=g1 tok=R1 u=tim", "q", "probe")
+		for _, k := range []string{common.Pick(r, "unpresent", "shutup"), common.Pick(r, "unpresent", "shutup", "op"), "unop", "unpresent"} {
+			g.script("m 0 t=useraction k="+k+" dst=c1", "q", "probe")
+		}
+		g.script("m 1 t=offer id=s1 sdp=bad", "m 1 t=chat v=s.hi", "q")
 	case 12: // joins and leaves are announced under the group's lock: with a slow member present, a join that overlaps other
 		// members' leaves (or a further join) must still leave every list equal to the membership
 		g.script("group g1 u=alice:pw:op u=bob:pw:present u=carl:pw:message w=*:message", "client 0 c0", "client 1 c1", "client 2 c2", "client 3 c3",
@@ -993,7 +1005,7 @@ func gen(t *common.Trace, e common.Engine, r *common.Rng, thorough bool) {
 		t.Case(fmt.Sprint(n))
 		e.Reset()
 		if r.Intn(100) < 20 {
-			k := r.Intn(13)
+			k := r.Intn(14)
 			t.Count(fmt.Sprintf("directed:%d", k))
 			g.directed(k)
 		} else {
